@@ -118,7 +118,22 @@ def pool_H(E, env):
     return {"s": a, "e1": E.Sine(a), "e2": E.Exponential(m), "e3": E.Logarithm(E.NthRoot(E.Negation(a), 3)), "m": m}
 
 
-POOLS = {"H": pool_H, "G": pool_G, "F": pool_F, "A": pool_A, "B": pool_B, "C": pool_C, "D": pool_D, "E": pool_E}
+def pool_I(E, env):
+    # a variable-free sub-expression that is undefined as written but still reducible, shared and occurring twice
+    x, y = E.Variable("x"), E.Variable("y")
+    u = E.Reciprocal(E.Reciprocal(E.Constant(0)))
+    w = E.Negation(E.Negation(E.Logarithm(E.Constant(0))))
+    return {"s": u, "e1": E.Add(E.Sine(x), E.Constant(2), u, E.Constant(3)), "e2": E.Multiply(u, y, u), "e3": E.Add(x, E.Multiply(w, y)), "w": w}
+
+
+def pool_J(E, env):
+    # float-spelled and negative-zero constants next to variables
+    x, y = E.Variable("x"), E.Variable("y")
+    c = E.Constant(2.0)
+    return {"s": c, "e1": E.Add(E.Multiply(c, x), E.Constant(0.5)), "e2": E.Multiply(E.Constant(3.0), y, E.Power(x, c)), "e3": E.Minus(E.Constant(1e22), E.Multiply(c, y))}
+
+
+POOLS = {"J": pool_J, "I": pool_I, "H": pool_H, "G": pool_G, "F": pool_F, "A": pool_A, "B": pool_B, "C": pool_C, "D": pool_D, "E": pool_E}
 CREATORS = ("mk", "mkexpr")
 
 
@@ -212,6 +227,11 @@ def run_op(op, objs, pts, sm, E):
         if isinstance(o, sm.Differential):
             return rt.outcome(lambda: o.component_at("x", pts[op[2]]))
         return rt.outcome(lambda: o.at(pts[op[2]]))
+    if k == "qat":
+        o = objs[op[1]]
+        if isinstance(o, sm.Differential):
+            return rt.outcome(lambda: (lambda ld: [ld.component("x"), ld.component("y")])(o.at(pts[op[2]])))
+        return rt.outcome(lambda: o.at(pts[op[2]]))
     if k == "qasexp":
         o = objs[op[1]]
         if isinstance(o, sm.Differential):
@@ -299,6 +319,16 @@ def exec_operands(spec, env):
             outs.append(rt.outcome(lambda: b.at(pts["p"])))
             outs.append(rt.outcome(lambda: a.at(env["p_x"])))      # bare number: accepted iff the object still mentions <= 1 variable
             outs.append(rt.outcome(lambda: b.at(env["p_x"])))
+        elif isinstance(a, sm.Differential):
+            outs.append(rt.outcome(lambda: [a.component_at("x", pts["p"]), a.component(E.Variable("y")).at(pts["p"])] + (lambda ld: [ld.component("x")])(a.at(pts["p"]))))
+            outs.append(rt.outcome(lambda: [b.component_at("x", pts["p"]), b.component(E.Variable("y")).at(pts["p"])] + (lambda ld: [ld.component("x")])(b.at(pts["p"]))))
+            outs.append(rt.outcome(lambda: repr(a.component("x").as_expression())))
+            outs.append(rt.outcome(lambda: repr(b.component("x").as_expression())))
+        elif isinstance(a, (sm.Partial, sm.Derivative)):
+            outs.append(rt.outcome(lambda: a.at(pts["p"])))
+            outs.append(rt.outcome(lambda: b.at(pts["p"])))
+            outs.append(rt.outcome(lambda: repr(a.as_expression())))
+            outs.append(rt.outcome(lambda: repr(b.as_expression())))
         else:
             outs += [{"kind": "value", "value": 0}] * 4
     if kept:
